@@ -449,8 +449,8 @@ def run_replay(ctx):
             obs, _ = R.execute(rs, route, level, xx, via_api=False)
             events.append(dict(id=len(events), sys=rs.name, route=route, level=level, x=lit(xx), sym=False, periodic=False, obs=obs))
         ctx.traces += len(events)
-        pf, _ = run_trace(ctx, systems, events[1:], "pinned") if len(events) > 1 else ({}, {})
-        variant = "repaired" if any(n.startswith("Conforms") for n in pf) else "pinned"
+        pf, _ = run_trace(ctx, systems, events[1:], "repaired") if len(events) > 1 else ({}, {})
+        variant = "pinned" if any(n.startswith("Conforms") for n in pf) else "repaired"
         found, _ = run_trace(ctx, systems, events[:1], variant)
         ctx.extra["code_follows_variant"] = variant
         for name, ev in sorted(found.items()):
@@ -502,10 +502,11 @@ def run_all(ctx):
     #     events, where the variants differ), and does it meet the requirement
     t0 = time.time()
     probe = [e for e in events if e["route"] == "transpose" and len(systems[e["sys"]].perms) % 2 == 0][:16]
-    variant = "pinned"
-    pf, _ = run_trace(ctx, systems, probe, "pinned")
+    variant = "repaired"
+    pf, _ = run_trace(ctx, systems, probe, "repaired")
     if any(n.startswith("Conforms") for n in pf):
-        variant = "repaired"
+        variant = "pinned"
+    ctx.extra["variant_probe"] = dict(events=len(probe), repaired_conforms=(variant == "repaired"))
     found, cov = run_trace(ctx, systems, events, variant)
     if any(n.startswith("Conforms") for n in found):
         ctx.extra["code_follows_variant_note"] = "closest transcription: %s (conformance violations reported)" % variant
